@@ -28,24 +28,27 @@ type Op struct {
 }
 
 type OpRec struct {
-	Client   int
-	Idx      int
-	Op       Op
-	LogFrom  int // backend log length at invoke
-	LogTo    int // backend log length at return
-	Seq0     int64
-	Seq1     int64
-	Res      []*mycli.Result
-	Err      error
-	TxOpen   bool   // client-side model: inside a transaction when the operation was issued
-	TxID     int    // transaction number of this client (0 = none)
-	AC       bool   // autocommit before
-	Charset  string // requested settings before the operation
-	Vars     map[string]string
-	UVars    map[string]string
-	At       time.Duration
-	Overlap  bool // another client's operation was in flight at some point during this one
+	Client  int
+	Idx     int
+	Op      Op
+	LogFrom int // backend log length at invoke
+	LogTo   int // backend log length at return
+	Seq0    int64
+	Seq1    int64
+	Res     []*mycli.Result
+	Err     error
+	TxOpen  bool   // client-side model: inside a transaction when the operation was issued
+	TxID    int    // transaction number of this client (0 = none)
+	AC      bool   // autocommit before
+	Charset string // requested settings before the operation
+	Vars    map[string]string
+	UVars   map[string]string
+	At      time.Duration
+	Overlap bool // another client's operation was in flight at some point during this one
 }
+
+// defaultCollation: MySQL's default collation of each character set the workloads use (5.7 servers).
+var defaultCollation = map[string]string{"utf8mb4": "utf8mb4_general_ci", "utf8": "utf8_general_ci", "gbk": "gbk_chinese_ci", "latin1": "latin1_swedish_ci"}
 
 // ClientModel is what the client itself knows about its session (independent of the proxy).
 type ClientModel struct {
@@ -67,10 +70,10 @@ type ClientModel struct {
 }
 
 type History struct {
-	W       *World
-	Ops     []*OpRec
-	Clients []*ClientModel
-	seq     int64
+	W        *World
+	Ops      []*OpRec
+	Clients  []*ClientModel
+	seq      int64
 	inFlight map[int]*OpRec
 }
 
@@ -178,7 +181,13 @@ func (h *History) updateModel(cm *ClientModel, rec *OpRec) {
 		cm.TxOpen = false
 		cm.TxID = 0
 	case "names":
-		cm.Charset = rec.Op.Arg
+		// Arg is "charset" (the connection collation becomes the default collation of the
+		// character set, as in MySQL) or "charset/collation"
+		if cs, col, ok := strings.Cut(rec.Op.Arg, "/"); ok {
+			cm.Charset, cm.Coll = cs, col
+		} else {
+			cm.Charset, cm.Coll = cs, defaultCollation[cs]
+		}
 	case "set":
 		kv := strings.SplitN(rec.Op.Arg, "=", 2)
 		if kv[1] == "DEFAULT" {
